@@ -4,6 +4,7 @@ import (
 	"encoding/json"
 	"fmt"
 	"math"
+	"strings"
 	"unicode/utf8"
 
 	"verif/internal/wk"
@@ -394,6 +395,8 @@ func (c *ctx) decorate(s *Shape, env *Env) {
 
 var propNames = []string{"a", "b", "c", "d", "e", "name", "value", "kind", "n", "items"}
 
+var oddPropNames = []string{"content.type", "first name", "größe", "app.kubernetes.io/name", "$ref", "a,b", "x-" + strings.Repeat("long", 70), "Ünï©ode", "0", "-"}
+
 func (c *ctx) genObject(depth int, id string, structMapped bool) *Shape {
 	if structMapped {
 		return c.genStructObject(depth, id, "")
@@ -407,6 +410,9 @@ func (c *ctx) genObject(depth int, id string, structMapped bool) *Shape {
 	used := map[string]bool{}
 	for i := 0; i < n; i++ {
 		name := wk.Pick(r, propNames)
+		if r.Chance(8) {
+			name = wk.Pick(r, oddPropNames) // a property ID is any non-empty string
+		}
 		if used[name] {
 			continue
 		}
